@@ -334,6 +334,11 @@ def run_check(run, tier):
     verify_string_decoders(run, tier)
     recs, _ = DCK.run_pool(run, 'C08')
     DCK.absorb(run, recs)
+    if tier == 'thorough':
+        out = native({'kind': 'conf_bytes', 'n': 20000, 'seed': run.seed})
+        run.bounded.append({'what': 'assumed byte-string algebra sampled against CPython (not proved)', 'result': out})
+        if out.get('mismatches'):
+            run.engine_error('byte-string algebra disagrees with CPython: %s' % out['mismatches'][:2])
     finish(run)
 
 
